@@ -822,8 +822,59 @@ func (fx *FnExec) loopEnv(st *State, lp *Loop) *Env {
 		if v, ok := st.vals[lp.rangeIdx]; ok {
 			env.vars["it"] = Val{T: "(+ " + v.T + " 1)", S: SInt}
 		}
+	} else if ph := counterPhi(lp); ph != nil {
+		// "for i := 0; ...; i++": the counter is the number of completed iterations, like `it` of a range loop
+		// (so a range loop rewritten as an index loop keeps its invariants)
+		if v, ok := st.vals[ph]; ok {
+			if _, own := env.vars["it"]; !own {
+				env.vars["it"] = Val{T: v.T, S: SInt}
+			}
+		}
 	}
 	return env
+}
+
+// counterPhi: the unique header phi that starts at the constant 0 and is incremented by the constant 1 on every back edge.
+func counterPhi(lp *Loop) *ssa.Phi {
+	var found *ssa.Phi
+	for _, in := range lp.header.Instrs {
+		ph, ok := in.(*ssa.Phi)
+		if !ok {
+			continue
+		}
+		okPhi := true
+		sawInit, sawStep := false, false
+		for i, e := range ph.Edges {
+			pred := lp.header.Preds[i]
+			if lp.blocks[pred] {
+				b, isB := e.(*ssa.BinOp)
+				c1, isC := func() (*ssa.Const, bool) {
+					if !isB {
+						return nil, false
+					}
+					c, ok := b.Y.(*ssa.Const)
+					return c, ok
+				}()
+				if !isB || b.Op != token.ADD || b.X != ssa.Value(ph) || !isC || c1.Value == nil || c1.Value.ExactString() != "1" {
+					okPhi = false
+				}
+				sawStep = true
+			} else {
+				c, isC := e.(*ssa.Const)
+				if !isC || c.Value == nil || c.Value.ExactString() != "0" {
+					okPhi = false
+				}
+				sawInit = true
+			}
+		}
+		if okPhi && sawInit && sawStep {
+			if found != nil {
+				return nil // ambiguous
+			}
+			found = ph
+		}
+	}
+	return found
 }
 
 func (fx *FnExec) checkInvariants(st *State, lp *Loop, kind string) {
@@ -882,26 +933,37 @@ func (fx *FnExec) resolveLocal(st *State, lp *Loop, name string) (Val, bool) {
 	if scope == nil {
 		return Val{}, false
 	}
-	sc, obj := scope.LookupParent(name, pos)
-	if obj == nil {
-		for _, nn := range fx.eng.renamesOf(lp.fn)[name] {
-			if sc, obj = scope.LookupParent(nn, pos); obj != nil {
-				name = nn
-				break
+	// all variables visible at pos under the contract's name or, after a rename in /repo, under the new
+	// name(s) of the variable(s) that carried it; innermost first. "^name" denotes the next one outward.
+	names := append([]string{name}, fx.eng.renamesOf(lp.fn)[name]...)
+	var cands []types.Object
+	for sc := scope; sc != nil; sc = sc.Parent() {
+		for _, n := range names {
+			if o := sc.Lookup(n); o != nil && (o.Pos() < pos || !o.Pos().IsValid()) {
+				dup := false
+				for _, c := range cands {
+					if c == o {
+						dup = true
+					}
+				}
+				if !dup {
+					cands = append(cands, o)
+				}
 			}
 		}
 	}
+	var obj types.Object
+	switch {
+	case !shadow && len(cands) >= 1:
+		obj = cands[0]
+	case shadow && len(cands) >= 2:
+		obj = cands[1]
+	case shadow && len(cands) == 1 && len(names) > 1:
+		// the shadowing was removed by the rename: the outer variable is the only one left under these names
+		obj = cands[0]
+	}
 	if obj == nil {
 		return Val{}, false
-	}
-	if shadow {
-		if sc.Parent() == nil {
-			return Val{}, false
-		}
-		_, obj = sc.Parent().LookupParent(name, pos)
-		if obj == nil {
-			return Val{}, false
-		}
 	}
 	tv, ok := obj.(*types.Var)
 	if !ok || tv.Parent() == nil || tv.Parent() == tv.Pkg().Scope() {
